@@ -73,8 +73,47 @@ def is_immutable_value(prog, mod: Module, e: Optional[ast.expr]) -> bool:
             # a frozen dataclass instance is immutable if its arguments are
             return all(is_immutable_value(prog, mod, a) for a in e.args) and \
                 all(is_immutable_value(prog, mod, k.value) for k in e.keywords)
+        if isinstance(sym, ClassInfo) and sym.is_dataclass and _never_written_after_construction(prog, sym):
+            # not declared frozen, but nothing in the package ever re-binds an attribute of such an object after its
+            # construction and none of its fields is a container: a constant in effect
+            return all(is_immutable_value(prog, mod, a) for a in e.args) and \
+                all(is_immutable_value(prog, mod, k.value) for k in e.keywords)
         return False
     return False
+
+
+def _never_written_after_construction(prog, cls: ClassInfo) -> bool:
+    cache = prog.__dict__.setdefault('_never_written_cache', {})
+    if cls.fq in cache:
+        return cache[cls.fq]
+    cache[cls.fq] = False
+    from ..model import strip_opt
+    attrs = set(prog.class_fields(cls))
+    for anc in prog.ancestors(cls):
+        if isinstance(anc, ClassInfo):
+            for m in anc.methods.values():
+                for n in ast.walk(m.node):
+                    if isinstance(n, ast.Attribute) and isinstance(n.ctx, ast.Store) and isinstance(n.value, ast.Name) and n.value.id == 'self':
+                        attrs.add(n.attr)
+    for nm, (ann, _d, owner) in prog.class_fields(cls).items():
+        t = strip_opt(prog.ann_to_type(owner.module, ann, owner)) if ann is not None else ('any',)
+        if t[0] in ('list', 'dict', 'set', 'any'):
+            return False
+        if t[0] == 'cls' and t[1] in prog.classes:
+            c2 = prog.classes[t[1]]
+            if not c2.is_enum and not (c2.is_dataclass and (c2.frozen or (c2 is not cls and _never_written_after_construction(prog, c2)))):
+                return False
+    own_init = {f'{a.fq}.{n}' for a in prog.ancestors(cls) if isinstance(a, ClassInfo) for n in ('__init__', '__post_init__')}
+    for f in prog.all_functions():
+        if f.fq in own_init or (f.cls is not None and f'{f.cls.fq}.{f.name}' in own_init):
+            continue
+        for n in ast.walk(f.node):
+            if isinstance(n, ast.Attribute) and isinstance(n.ctx, (ast.Store, ast.Del)) and n.attr in attrs:
+                return False
+            if isinstance(n, ast.Call) and isinstance(n.func, ast.Name) and n.func.id in ('setattr', 'delattr'):
+                return False
+    cache[cls.fq] = True
+    return True
 
 
 READONLY_METHODS = {'get', 'keys', 'values', 'items', 'index', 'count', 'copy', 'union', 'intersection', 'difference',
@@ -214,6 +253,37 @@ def readonly_table(prog, mod: Module, stmt: ast.stmt) -> Optional[str]:
     return f'constant table: immutable elements, {n_uses} read-only uses, never written, aliased or passed on'
 
 
+def _only_compared(prog, mod: Module, stmt: ast.stmt) -> Optional[str]:
+    """A module-level object that the package only ever *compares with* (==, !=, is, in): nothing is called on it, nothing
+    is stored into it, it is handed to no function - a reference value, not state."""
+    targets = stmt.targets if isinstance(stmt, ast.Assign) else [stmt.target]
+    if len(targets) != 1 or not isinstance(targets[0], ast.Name):
+        return None
+    name = targets[0].id
+    n_uses = 0
+    for m in prog.modules.values():
+        for node in ast.walk(m.tree):
+            is_ref = (isinstance(node, ast.Name) and node.id == name) or (isinstance(node, ast.Attribute) and node.attr == name)
+            if not is_ref or node is targets[0]:
+                continue
+            if isinstance(node, ast.Name) and m is not mod and not any(isinstance(a, ast.alias) and (a.asname or a.name) == name
+                                                                      for a in ast.walk(m.tree)):
+                continue
+            if isinstance(node, ast.Attribute) and not isinstance(prog.resolve_expr_symbol(m, node.value) if isinstance(
+                    node.value, (ast.Name, ast.Attribute)) else None, Module):
+                continue
+            par = prog.parent(node)
+            if isinstance(par, (ast.alias, ast.ImportFrom)):
+                continue
+            if isinstance(getattr(node, 'ctx', None), (ast.Store, ast.Del)):
+                return None
+            n_uses += 1
+            if isinstance(par, ast.Compare) and (node is par.left or node in par.comparators):
+                continue
+            return None
+    return f'reference value: the package only compares with it ({n_uses} comparisons), never calls, stores into or hands it on' if n_uses else None
+
+
 def module_state_instances(ctx) -> List[tuple]:
     """Instances for the 'no module-level / class-level mutable state' rule.
     Returns tuples (module, function, construct, ok, message, node)."""
@@ -228,7 +298,7 @@ def module_state_instances(ctx) -> List[tuple]:
                 ok = is_immutable_value(prog, mod, val)
                 why = 'module-level binding of an immutable value'
                 if not ok:
-                    table = readonly_table(prog, mod, stmt)
+                    table = readonly_table(prog, mod, stmt) or _only_compared(prog, mod, stmt)
                     if table:
                         ok, why = True, table
                 out.append((mod.name, '<module>', stmt, ok,
